@@ -6,6 +6,9 @@
            generator / independent parse of the VoD files;
            F, TSa, A, ra, rv, M, PA   audio constants (see AudioResegOps); vcls[x+1] = class of VoD audio frame x,
            class = index of the first VoD frame with the same payload digest}
+     hdr.ll = TRUE: the scenario requests low-latency chunked delivery (ato_ + chunkdur_); a seg event then describes the
+           concatenation of all fragments of the chunked body, sdig / wdig = digest of (first decode time, per-sample duration, size,
+           payload) of the chunked body / of the same segment delivered whole (wst = its status)
      seg  {k, i, st, nrp, tfdt, cnt, durs, cls, nfrag, contig, run}   answer to the request for audio segment
            n = k*N + i (by number, or by $Time$ with the value a client would compute): nrp = (mfhd - snr) as pair
            over N; tfdt pair over PA; cnt samples; durs = distinct sample durations; cls[j] = class of the j-th
@@ -63,6 +66,10 @@ Seg == /\ e.ev = "seg"
                                        /\ \A j \in 1..Len(e.cls) : e.cls[j] >= 0
                                        /\ \A j \in 2..Len(e.cls) : \E x \in ClsSet(e.cls[j - 1]), y \in ClsSet(e.cls[j]) : WeakNext(AU, x, y, RestartSlack),
                          <<"weak reading (vod0 # 0)", "classes", e.cls>>)
+          \* every delivery variant is the same audio segment: the low-latency (chunked) body, all fragments concatenated, has the
+          \* samples of the whole segment served for the same request without ato_/chunkdur_ (all clauses above are evaluated on the
+          \* concatenation: first fragment's tfdt, all samples, fragments contiguous)
+          /\ Clause("C03.variant", (H.ll /\ e.wst = 200) => e.sdig = e.wdig, <<"chunked", e.sdig, "whole", e.wdig, "fragments", e.nfrag>>)
           /\ prev' = [k |-> e.k, i |-> e.i, tfdt |-> TFrom(e.tfdt), cnt |-> e.cnt]
        /\ UNCHANGED h
 
